@@ -26,6 +26,36 @@ Inductive sent := SPanic | SNone | SSent (hdr : string * string).
 (* the secret in a lookup answer (BackendCfg.proj: id, secret, limit, bitrates, compat) *)
 Definition answer_secret (p : N * N * Z * Z * Z * bool) : N := snd (fst (fst (fst (fst p)))).
 
+(* ---- the back part of PerformJSONRequest: what happens to a request that left -----
+   c.Do(req) is called ONCE per call of PerformJSONRequest.  Whatever becomes of the
+   request at the backend - answered; connection closed before a response byte;
+   connection closed in the middle of the response; answered 500; no answer until the
+   context of the call expires - the client does not send it again: the caller gets the
+   response or the error.  (net/http's transport re-sends on its own only what provably
+   never reached the backend: a POST without Idempotency-Key is retried only when not
+   one byte of it was written to a reused connection.)  A caller that tries again calls
+   PerformJSONRequest again: a new request of the history, signed with the next random.
+   Redirects (307/308 to the same host are followed by the http.Client with the same
+   headers) are outside this model: see notes/strengthen-c2.md. *)
+Inductive fate := FAnswered | FClosed | FCut | FStatus500 | FSilent.
+Inductive outcome := OResponse | OError.
+
+(* the requests that arrive at the backend because of one call (with their two headers), and
+   what the caller gets *)
+Definition deliver (s : sent) (f : fate) : list (string * string) * outcome :=
+  match s with
+  | SSent h => ([h], match f with FAnswered => OResponse | _ => OError end)
+  | _ => ([], OError)
+  end.
+
+(* everything that arrives at the backends during a history: `fates k` is what happens to
+   the k-th request *)
+Fixpoint wire (fates : nat -> fate) (k : nat) (ss : list sent) : list (string * string) :=
+  match ss with
+  | [] => []
+  | s :: r => (fst (deliver s (fates k)) ++ wire fates (S k) r)%list
+  end.
+
 Section OutReq.
 Context (hmac : bytes -> bytes -> bytes) (up : string -> option purl) (secret_of : N -> bytes).
 
